@@ -70,6 +70,13 @@ type WorkerOut struct {
 	FirstIdx   uint64            `json:"first_index"`
 	LastIdx    uint64            `json:"last_index"`
 	Hashes     []string          `json:"hashes,omitempty"`
+	Poisoned   bool              `json:"poisoned,omitempty"`
+	// RestartFrom > 0: the library's package-level state no longer equals its
+	// start-up value (or goroutines are stuck in it); the driver continues the
+	// index sequence in a fresh process so that every run starts from a
+	// pristine library, exactly as its replay will.
+	RestartFrom uint64 `json:"restart_from,omitempty"`
+	Restarts    uint64 `json:"restarts,omitempty"`
 }
 
 func progHash(run *work.Run) uint64 {
@@ -213,6 +220,15 @@ func worker(args []string) {
 			if len(out.InconWhy) < 5 {
 				out.InconWhy = append(out.InconWhy, fmt.Sprintf("run %d: %v", idx, res.Incon))
 			}
+			if res.Poisoned {
+				out.Poisoned = true
+				out.RestartFrom = idx + *stride
+				break
+			}
+			if _, ok := g.CheckDeep(); !ok {
+				out.RestartFrom = idx + *stride
+				break
+			}
 			continue
 		}
 		ph := progHash(run)
@@ -242,6 +258,10 @@ func worker(args []string) {
 			cp := *run
 			cp.Entropy.Stream = nil
 			out.Samples = append(out.Samples, &cp)
+		}
+		if _, ok := g.CheckDeep(); !ok || res.Poisoned {
+			out.RestartFrom = idx + *stride
+			break
 		}
 		// in-process determinism re-check on ~2% of the runs
 		if detR.P(0.02) {
